@@ -4,6 +4,7 @@ import Tw.Proofs.SnapMgr
 import Tw.Proofs.SnapMgrSys
 import Tw.Proofs.SnapMgrInst
 import Tw.Proofs.SnapChain
+import Tw.Proofs.SnapMgrC
 
 /-!
 # C13 — client and server snapshot state never diverge silently
@@ -25,12 +26,13 @@ open Tw.SnapXfer Tw.SnapMgr
 /-- Tie to the source: `MAX_STORED_SNAPSHOT`, the literals of `Storage::add_delta`
 (`unwrap_or(-1)`, `delta_tick >= 0`, `delta_tick != -1`) and `set_delta_tick` (`tick < 0`,
 `tick != -1`), the base tick the sender glue passes to `delta_chunks`, and `new_builder` recycling a
-copy of the newest stored snapshot (repair of D25). -/
+copy of the newest stored snapshot (repair of D25), and the 64 KiB the glue reserves for the packed
+delta. -/
 theorem tie_storage :
     maxStored = 100 ∧ Tw.Gen.SnapMgr.lits_add_delta = [1, 0, 1] ∧
       Tw.Gen.SnapMgr.lits_set_delta_tick = [0, 1] ∧
       Tw.Gen.SnapMgr.glue_base_tick_or_minus_one = true ∧
-      Tw.Gen.SnapMgr.new_builder_continues_newest = true := by decide
+      Tw.Gen.SnapMgr.new_builder_continues_newest = true ∧ writeCapacity = 65536 := by decide
 
 /-- **C13, safety.**  For every lawful snapshot layer, every sender history whose ticks are `i32`s
 and strictly increasing, and every delivery schedule of snapshot messages and acknowledgements
@@ -80,6 +82,63 @@ theorem accepted_snapshot_is_senders_snap_model (objSize : Nat → Option Nat)
       (res = .ok none → after = before) ∧
       (∀ e, res = .error e → after = before ∨ after = none) :=
   accepted_snapshot_is_senders (snapOps objSize) (snapOps_laws objSize) evs hapi y obs hrun
+
+/-- **C13, safety, with the builder and the free list.**  The same statement for histories in
+which the sender builds its snapshots with `new_builder()` (seeded from the newest stored snapshot,
+else from the free list) from what the application adds (`sendItems`), for any builder whatsoever
+(`BuildOps`): a refused item (`BuilderError`) sends nothing; everything that is delivered obeys the
+verdict of `accepted_snapshot_is_senders`. -/
+theorem accepted_snapshot_is_senders_with_builder {S D I : Type} (ops : Ops S D) (laws : Laws ops)
+    (b : BuildOps S I) (evs : List (EvB S I)) (hapi : sendsOkB none evs)
+    (y : SysB S) (obs : List (ObsB S)) (hrun : SysB.run ops b {} evs = .ok (y, obs)) :
+    Functional y.sys.sent ∧
+    ∀ t res before after, ObsB.obs (Obs.delivered t res before after) ∈ obs →
+      (∀ s, res = .ok (some s) → (t, s) ∈ y.sys.sent ∧ after = some t) ∧
+      (res = .ok none → after = before) ∧
+      (∀ e, res = .error e → after = before ∨ after = none) := by
+  obtain ⟨hg, hobs, _⟩ := runB_safe laws b evs {} none good_init (by intro p hp; cases hp) hapi y obs hrun
+  refine ⟨hg.sentFun, ?_⟩
+  intro t res before after hmem
+  have h : Obs.ok y.sys.sent (Obs.delivered t res before after) := hobs _ hmem
+  refine ⟨?_, ?_, ?_⟩
+  · intro s hs; subst hs; exact h
+  · intro hs; subst hs; exact h
+  · intro e hs; subst hs; exact h
+
+/-- `ack_tick` is cleared on an unknown base and on a bad checksum (and set only by a successful
+apply: `Storage.finishDelta`) — for every storage state, delta and snapshot layer. -/
+theorem ack_cleared_on_unknown_base_or_bad_checksum {S D : Type} (ops : Ops S D) (st : Storage S)
+    (crc : Option Int) (deltaTick tick : Int) (delta : D) :
+    ((st.addDelta ops crc deltaTick tick delta).2.1 = .error .unknownSnap ∨
+      (st.addDelta ops crc deltaTick tick delta).2.1 = .error .invalidCrc) →
+    (st.addDelta ops crc deltaTick tick delta).1.ackTick = none := by
+  have hfin : ∀ (st' : Storage S) (base : S) (w : Bool),
+      ((st'.finishDelta ops crc tick base delta w).2.1 = .error .unknownSnap ∨
+        (st'.finishDelta ops crc tick base delta w).2.1 = .error .invalidCrc) →
+      (st'.finishDelta ops crc tick base delta w).1.ackTick = none := by
+    intro st' base w
+    unfold Storage.finishDelta
+    cases ops.apply base delta with
+    | error e => intro h; rcases h with h | h <;> simp at h
+    | ok new =>
+      simp only
+      cases crc with
+      | none => simp
+      | some c => by_cases hc : c = ops.crc new <;> simp [hc]
+  unfold Storage.addDelta
+  by_cases h1 : st.newestTick ≥ tick
+  · simp only [h1, if_true]; intro h; rcases h with h | h <;> simp at h
+  simp only [h1, if_false]
+  by_cases h2 : deltaTick ≥ 0
+  · simp only [h2, if_true]
+    cases (keepFrom st.snaps deltaTick).getLast? with
+    | none => intro _; rfl
+    | some d =>
+      simp only
+      by_cases h3 : d.tick = deltaTick
+      · rw [if_pos h3]; exact hfin _ _ _
+      · rw [if_neg h3]; intro _; rfl
+  · simp only [h2, if_false]; exact hfin _ _ _
 
 /-- The invariant behind it: at every moment every snapshot stored on the receiving side under
 tick `t` is the sender's snapshot for `t`, the sender's base is a snapshot it still stores (with a
@@ -144,6 +203,24 @@ theorem no_panic_partial {S D : Type} (ops : Ops S D)
     obtain ⟨⟨y2, os⟩, h2⟩ := ih y1
     exact ⟨(y2, o1 :: os), by simp [Sys.run, h1, h2]⟩
 
+/-- **No panic on the sending side, from application-level hypotheses (partial: up to the glue's
+buffer).**  The concrete model: snapshot layer of `Model/Snap.lean`, builder with `recycle`,
+`Storage` with its free list, the glue with its 64 KiB buffer (`execOps`, `execBuild`).  Hypotheses:
+the object-size table agrees with the sizes the application uses and has no entry for the registry
+type or an extended type number (`TableOk`; true of `obj_size` of every protocol crate); every item
+the application adds has a valid type, a `u16` id, `i32` data and the size fixed for its
+`(type, id)` (`EvOk`, `ItemOk`); nothing is said about ticks or the delivery schedule (any `i32` ticks, any acknowledgements
+incl. forged ones, any losses).  Then a history either runs to the end — no panic in
+`Snap::recycle`, `Builder::add_item`, `Delta::create` (D15/D25), the size assertion of
+`Delta::write`, `delta_chunks`, `Storage` — or it panics and some packed delta was larger than the
+buffer `send_snapshots` reserves.  What keeps this from `C13_full`: the buffer of the server glue. -/
+theorem sender_panics_only_on_buffer_overflow_partial (objSize : Nat → Option Nat)
+    (size : Tw.Snap.TypeId → Nat → Nat) (ht : TableOk objSize size)
+    (evs : List (EvB Tw.Snap.Snap (List Item))) (hev : ∀ e, e ∈ evs → EvOk size e) :
+    (∃ r, SysB.run (execOps objSize) execBuild {} evs = .ok r) ∨
+    ((∃ s, SysB.run (execOps objSize) execBuild {} evs = .panic s) ∧ Oversize objSize) :=
+  runB_no_panic ht evs {} (invB_init size) hev
+
 /-- The full-strength "nothing panics" statement: for *every* lawful snapshot layer.  It is false
 for a layer whose `create` can fail, and the real `Delta::create` can (open findings D15, D25). -/
 def C13_full : Prop :=
@@ -180,16 +257,37 @@ theorem d25_witness :
 
 /-- **D25 repaired, in the concrete snapshot model.**  Since the repair every builder the sender
 uses continues the snapshot built before it (`Step.recycle`), so the snapshots the sender stores lie
-on one chain that starts with `Builder::new()`.  If the application gives every item the size of
-its type (`Step.add`; true of every protocol object), any earlier snapshot `a` and later snapshot `b`
+on one chain that starts with `Builder::new()`.  If the application gives every item the size it fixed for that
+`(type, id)` (`Step.add`), any earlier snapshot `a` and later snapshot `b`
 of the chain have agreeing raw item sizes — a UUID type keeps its raw number along the chain — and
 `Delta::create(a, b)` does not panic.  (`d25_witness` shows that this fails for unrelated fresh
 builders.) -/
-theorem recycled_builder_chain_never_refuses {size : Tw.Snap.TypeId → Nat} {a b : Tw.Snap.Builder}
+theorem recycled_builder_chain_never_refuses {size : Tw.Snap.TypeId → Nat → Nat} {a b : Tw.Snap.Builder}
     (h0 : Tw.Snap.Chain size Tw.Snap.Builder.new a) (h1 : Tw.Snap.Chain size a b) :
     Tw.Snap.SizesAgree a.snap.raw b.snap.raw ∧
       ∃ d, Tw.Snap.createDelta a.snap.raw b.snap.raw = some d :=
   Tw.Snap.chain_create h0 h1
+
+-- non-vacuity: the 0.6 object-size table with any size function that extends it satisfies `TableOk`
+example : TableOk (fun t => (Tw.Gen.Snap.objSize_tw06.find? (·.1 == t)).map (·.2))
+    (fun tid id => match tid with
+      | .ordinal o => ((Tw.Gen.Snap.objSize_tw06.find? (·.1 == o)).map (·.2)).getD (1 + id % 4)
+      | .uuid _ => 3 + id % 2) where
+  registry := by decide
+  extended := by
+    intro t ht
+    have : ∀ p, p ∈ Tw.Gen.Snap.objSize_tw06 → p.1 < 16384 := by decide
+    cases hf : Tw.Gen.Snap.objSize_tw06.find? (·.1 == t) with
+    | none => rfl
+    | some p =>
+      have h1 := this p (List.mem_of_find?_eq_some hf)
+      have h2 := List.find?_some hf
+      simp only [beq_iff_eq] at h2
+      rw [Tw.Snap.offsetExt_eq] at ht
+      omega
+  ordinal := by
+    intro o n id _ _ h
+    simp only [h, Option.getD_some]
 
 -- non-vacuity: a lawful snapshot layer exists (snapshot = byte string, delta = the target itself),
 -- and histories with increasing ticks satisfy `sendsOk`
